@@ -318,10 +318,17 @@ func (c *RuleChecker) isOfflinePeer(peer *metapb.Peer) bool {
 }
 
 func (c *RuleChecker) strategy(region *core.RegionInfo, rule *placement.Rule) *ReplicaStrategy {
+	isolationLevel := rule.IsolationLevel
+	if isolationLevel == "" && rule.GroupID == "pd" && rule.ID == "default" {
+		// The default rule is derived from the replication config (max-replicas, location-labels),
+		// which never copies replication.isolation-level into it: take it from the config, as the
+		// replica checker does, so that the option is not dead when placement rules are enabled.
+		isolationLevel = c.cluster.GetOpts().GetIsolationLevel()
+	}
 	return &ReplicaStrategy{
 		checkerName:    c.name,
 		cluster:        c.cluster,
-		isolationLevel: rule.IsolationLevel,
+		isolationLevel: isolationLevel,
 		locationLabels: rule.LocationLabels,
 		region:         region,
 		extraFilters:   []filter.Filter{filter.NewLabelConstaintFilter(c.name, rule.LabelConstraints)},
